@@ -127,7 +127,8 @@ class CasJsonDeserializer:
 
             # Second, load all the types but no features since features of a type X might be of a later loaded type Y
             for type_name in toposort_flatten(type_dependencies):
-                if is_predefined(type_name) or embedded_typesystem.contains_type(type_name):
+                # Exact match: a type without namespace may be named like the short name of a built-in type
+                if is_predefined(type_name) or embedded_typesystem.contains_type(type_name, match_exactly=True):
                     continue
 
                 self._parse_type(embedded_typesystem, type_name, json_typesystem[type_name])
